@@ -31,7 +31,7 @@ def make_shape(s):
     if k == "spheroid":
         return shapes.SpheroidShape()
     if k == "annulus":
-        m = trimesh.creation.annulus(r_min=s["r_min"], r_max=s["r_max"], height=s["ann_h"])
+        m = trimesh.creation.annulus(r_min=s["r_min"], r_max=s["r_max"], height=s["ann_h"], sections=s.get("sections", 32))
         return shapes.MeshShape(m)
     raise ValueError(k)
 
@@ -190,8 +190,18 @@ def record_grid(case, c, R, d):
             return np.zeros((0, 3)), np.zeros(0, dtype=int), np.zeros(0, dtype=int)
         o = np.asarray(ray_origins, dtype=float)
         return o.copy(), np.arange(len(o)), np.zeros(len(o), dtype=int)
+    orig_contains = rt.RayMeshIntersector.contains_points
+
+    def contains(self, points):
+        # point-in-mesh tests (distanceTo) cast rays of their own: not part of the grid, answered by the real code
+        rt.RayMeshIntersector.intersects_location = orig
+        try:
+            return orig_contains(self, points)
+        finally:
+            rt.RayMeshIntersector.intersects_location = fake
     out = {}
     rt.RayMeshIntersector.intersects_location = fake
+    rt.RayMeshIntersector.contains_points = contains
     try:
         try:
             out["res"] = bool(viewer.canSee(target, occludingObjects=(dummy,)))
@@ -201,11 +211,12 @@ def record_grid(case, c, R, d):
             out["exc"] = type(e).__name__ + ": " + str(e)[:200]
     finally:
         rt.RayMeshIntersector.intersects_location = orig
+        rt.RayMeshIntersector.contains_points = orig_contains
     V = np.asarray(tmesh.vertices, dtype=float) - c
     if R is not None:
         V = V @ R                      # rows: R^T (v - c)
     out["verts"] = V.tolist()
-    out["edges"] = np.asarray(tmesh.edges).tolist()
+    out["edges"] = np.asarray(tmesh.edges_unique).tolist()   # each undirected mesh edge once (mesh.edges lists both directions; flags and windows do not depend on the direction)
     out["surface_dist"] = float(trimesh.proximity.closest_point(tmesh, [c])[1][0])
     out["cam_inside"] = bool(tmesh.contains([c])[0]) if tmesh.is_watertight else False
     if rec:
@@ -243,7 +254,7 @@ def run_2d(case):
     if v["cls"] == "Point2D":
         viewer = Point2D._with(**kw)
     else:
-        kw.update(heading=v["heading"], viewAngle=v["angle"])
+        kw.update(yaw=v["heading"], viewAngle=v["angle"])      # in 2D mode heading == yaw (parentOrientation is 0)
         if v["cls"] == "OrientedPoint2D":
             viewer = OrientedPoint2D._with(**kw)
         else:
@@ -255,9 +266,9 @@ def run_2d(case):
     elif t["kind"] == "point":
         target = Point2D._with(position=Vector(t["pos"][0], t["pos"][1], 0))
     elif t["kind"] == "opoint":
-        target = OrientedPoint2D._with(position=Vector(t["pos"][0], t["pos"][1], 0), heading=0.3)
+        target = OrientedPoint2D._with(position=Vector(t["pos"][0], t["pos"][1], 0), yaw=0.3)
     else:
-        target = Object2D._with(position=Vector(t["pos"][0], t["pos"][1], 0), heading=t["heading"], width=t["dims"][0], length=t["dims"][1])
+        target = Object2D._with(position=Vector(t["pos"][0], t["pos"][1], 0), yaw=t["heading"], width=t["dims"][0], length=t["dims"][1])
     # camera computed independently of Scenic
     c = np.array([v["pos"][0], v["pos"][1], 0.0])
     if v["cls"] == "Object2D":
@@ -294,9 +305,10 @@ def run_plumbing(case):
 
 def main():
     job = json.load(sys.stdin)
-    fn = dict(points=run_point, objects=run_object, plumbing=run_plumbing, twod=run_2d)[job["kind"]]
+    fns = dict(points=run_point, objects=run_object, plumbing=run_plumbing, twod=run_2d)
     results = []
     for case in job["cases"]:
+        fn = fns[case["k"] if job["kind"] == "mixed" else job["kind"]]
         try:
             r = fn(case)
         except Exception as e:  # harness-level failure, reported as such
